@@ -258,9 +258,16 @@ impl Ctx {
     }
 }
 
+thread_local! {
+    static CATCH_DEPTH: std::cell::Cell<usize> = const { std::cell::Cell::new(0) };
+}
+
 /// Runs `f` catching panics; returns Err(panic message).
 pub fn catch<T>(f: impl FnOnce() -> T) -> Result<T, String> {
-    match std::panic::catch_unwind(std::panic::AssertUnwindSafe(f)) {
+    CATCH_DEPTH.with(|d| d.set(d.get() + 1));
+    let r = std::panic::catch_unwind(std::panic::AssertUnwindSafe(f));
+    CATCH_DEPTH.with(|d| d.set(d.get() - 1));
+    match r {
         Ok(v) => Ok(v),
         Err(e) => Err(if let Some(s) = e.downcast_ref::<&str>() {
             s.to_string()
@@ -272,9 +279,15 @@ pub fn catch<T>(f: impl FnOnce() -> T) -> Result<T, String> {
     }
 }
 
-/// Silences the default panic hook (panics are caught and reported as violations).
+/// Silences the panic hook inside `catch` (those panics are verdict material); a panic of
+/// the harness itself is printed and turned into exit code 2 (machinery error).
 pub fn quiet_panics() {
-    std::panic::set_hook(Box::new(|_| {}));
+    std::panic::set_hook(Box::new(|info| {
+        if CATCH_DEPTH.with(|d| d.get()) == 0 {
+            eprintln!("MACHINERY-ERROR: harness panic: {info}");
+            std::process::exit(2);
+        }
+    }));
 }
 
 /// Takes the first line of a panic message and strips volatile parts, for fingerprints.
